@@ -203,8 +203,8 @@ def runCommand (w : World) (t : FdTable) (k : Kind) (rs : List Redir) (prev : Na
   | .empty =>
     -- no word, no redirection: there is no command at all and `$?` stays
     if rs.isEmpty then { w := w, t := t, status := some prev } else
-    -- the subshell's table is a copy (`fork_from` does not copy the resource limits)
-    let g := performRedirs worldOracle w { t with limit := none } rs
+    -- the subshell's table is a copy of the parent's (`fork_from` copies descriptors and limits)
+    let g := performRedirs worldOracle w t rs
     match g.err with
     | some _ => { w := g.w.message g.t, t := t, status := some 2 }
     | none => { w := g.w, t := t, status := some 0 }
